@@ -44,13 +44,12 @@ Definition dnames (e : file) : list string := map v_name (data_vars e).
 
 (* the dry run over [orig] (what cfdm.read returned for E) has registered
    every name of E as being in use, has registered no data variable of E as
-   the variable of a coordinate-like construct or of bounds, and has created
-   nothing; the dimensions of E's data variables exist *)
+   the variable of a coordinate-like construct or of bounds; the dimensions
+   of E's data variables exist *)
 Definition covers (vr : variant) (e : file) (orig : list field) : bool :=
   let s := dry_run vr e orig in
   forallb (fun n => smem n (existing s)) (names_of e) &&
   forallb (fun en => negb (smem (e_ncvar en) (dnames e))) (w_seen s) &&
   forallb (fun p => negb (smem (snd p) (dnames e))) (w_bnds s) &&
-  Nat.eqb (length (d_vars (w_file s))) (length (d_vars e)) &&
   forallb (fun v => forallb (fun d => match assoc d (d_dims e) with Some _ => true | None => false end) (v_dims v))
           (data_vars e).
